@@ -70,9 +70,11 @@ func c08Msg(r *fw.R, m *wire.Msg, tag string) {
 	// can know beforehand: Len() with Compress=false (≥ the true length; equal for plain messages).
 	g.Compress = false
 	lu := g.Len()
+	g.Compress = true
+	cl := g.Len() // the compressed length: a caller's buffer between it and the uncompressed length is too small, not "just enough"
 	for _, comp := range []bool{false, true} {
 		g.Compress = comp
-		for _, n := range []int{ulen - 1, ulen, ulen + 1, lu - 1, lu, lu + 1, lu + 2, lu + 100} {
+		for _, n := range []int{ulen - 1, ulen, ulen + 1, lu - 1, lu, lu + 1, lu + 2, lu + 100, cl - 1, cl, cl + 1, cl + 2, cl + 5, cl + 9, (cl + ulen) / 2} {
 			if n < 0 {
 				continue
 			}
@@ -104,9 +106,11 @@ func c08PackBufferGrid(r *fw.R, m *dns.Msg, tag, desc string) {
 		return
 	}
 	ulen := len(b)
+	m.Compress = true
+	cl := m.Len()
 	for _, comp := range []bool{false, true} {
 		m.Compress = comp
-		for _, n := range []int{0, ulen - 1, ulen, ulen + 1, lu - 1, lu, lu + 1, lu + 2} {
+		for _, n := range []int{0, ulen - 1, ulen, ulen + 1, lu - 1, lu, lu + 1, lu + 2, cl - 1, cl, cl + 1, cl + 2, cl + 5, cl + 9, (cl + ulen) / 2} {
 			if n < 0 {
 				continue
 			}
